@@ -139,10 +139,18 @@ func runC18(c *Ctx) {
 			}
 		}
 	}
+	for rep := 0; rep < reps && rep < 2; rep++ {
+		// long cells first so that they overlap with everything else
+		cells = append([]cell{{"tcp+pipeline", "eol-inflight", rep}, {"tls+pipeline", "eol-inflight", rep}}, cells...)
+	}
 	parallelFor(len(cells), 12, nil, func(i int) {
 		cl := cells[i]
 		name := fmt.Sprintf("up-%s-%s-%d", strings.ReplaceAll(cl.kind, "+", "_"), cl.point, cl.rep)
-		out, exit, killed := c18RunChild(c, name, 60, "c18up", cl.kind, cl.point, strconv.FormatInt(c.Seed+int64(cl.rep), 10))
+		watchdog := 60
+		if cl.point == "eol-inflight" {
+			watchdog = 300
+		}
+		out, exit, killed := c18RunChild(c, name, watchdog, "c18up", cl.kind, cl.point, strconv.FormatInt(c.Seed+int64(cl.rep), 10))
 		c18Judge(c, "upstream", cl.kind+"/"+cl.point, out, exit, killed, map[string]any{"kind": cl.kind, "point": cl.point, "seed": c.Seed + int64(cl.rep)})
 	})
 	// (b)
@@ -314,7 +322,11 @@ func c18UpstreamChild(args []string) int {
 			inflight.Add(1)
 			go func(i int) {
 				defer inflight.Done()
-				d, err := exchange(fmt.Sprintf("ok-d2000-f%d.c18.test.", i), 10*time.Second)
+				name := fmt.Sprintf("ok-d2000-f%d.c18.test.", i)
+				if i%2 == 1 {
+					name = fmt.Sprintf("silent-f%d.c18.test.", i) // never answered: only Close can end it early
+				}
+				d, err := exchange(name, 10*time.Second)
 				if err == nil && d < 1900*time.Millisecond {
 					lateOK.Add(1)
 				}
@@ -325,6 +337,70 @@ func c18UpstreamChild(args []string) int {
 			}(i)
 		}
 		time.Sleep(300 * time.Millisecond)
+	case "eol-inflight":
+		// a pipelined connection that has used up its 65536 wire ids while its last queries are still
+		// outstanding, and a transport that has moved on to a second connection: Close must still
+		// reach the first one
+		if _, err := exchange("ok-e0.c18.test.", 5*time.Second); err != nil {
+			fmt.Println("INCONCLUSIVE exchange failed during the id run:", err)
+			return 0
+		}
+		{
+			var next, failed atomic.Int64
+			next.Store(1)
+			var wg sync.WaitGroup
+			for w := 0; w < 8; w++ {
+				wg.Add(1)
+				go func() {
+					defer wg.Done()
+					for {
+						i := next.Add(1) - 1
+						if i >= 65536-6 {
+							return
+						}
+						ctx, cancel := context.WithTimeout(context.Background(), 5*time.Second)
+						m, err := u.ExchangeContext(ctx, mkQuery(uint16(i), fmt.Sprintf("ok-e%d.c18.test.", i), dns.TypeA, dns.ClassINET, true))
+						cancel()
+						if err != nil {
+							failed.Add(1)
+							return
+						}
+						dnsmsg.ReleaseMsg(m)
+					}
+				}()
+			}
+			wg.Wait()
+			if failed.Load() > 0 {
+				fmt.Println("INCONCLUSIVE exchange failed during the id run")
+				return 0
+			}
+		}
+		if dials.Load() != 1 {
+			fmt.Printf("INCONCLUSIVE the id run used %d connections\n", dials.Load())
+			return 0
+		}
+		for i := 0; i < 10; i++ {
+			inflight.Add(1)
+			go func(i int) {
+				defer inflight.Done()
+				name := fmt.Sprintf("ok-d2000-g%d.c18.test.", i)
+				if i%2 == 0 {
+					name = fmt.Sprintf("silent-g%d.c18.test.", i) // never answered
+				}
+				d, err := exchange(name, 10*time.Second)
+				if d > 3300*time.Millisecond {
+					fmt.Printf("VIOL inflight-exchange-not-released:%s an exchange in flight on an id-exhausted connection during Close returned only after %v (err=%v)\n", kind, d, err)
+				}
+			}(i)
+		}
+		time.Sleep(150 * time.Millisecond)
+		for i := 0; i < 4; i++ {
+			if _, err := exchange(fmt.Sprintf("ok-n%d.c18.test.", i), 5*time.Second); err == nil {
+				okN++
+			}
+		}
+		fmt.Printf("COUNT eol_connections_dialled %d\n", dials.Load())
+		time.Sleep(100 * time.Millisecond)
 	case "pending-dial":
 		dialGate.Store(true)
 		for i := 0; i < 3; i++ {
